@@ -6,6 +6,15 @@ Open Scope string_scope.
 Open Scope list_scope.
 Open Scope N_scope.
 
+Section CV.
+Variable cv : variant.
+Local Notation ser := (SmtSer.ser cv) (only parsing).
+Local Notation escape_id := (SmtSer.escape_id cv) (only parsing).
+Local Notation name_ok := (SmtSer.name_ok cv) (only parsing).
+Local Notation declared := (SmtSer.declared cv) (only parsing).
+Local Notation symbols_declared := (SmtSer.symbols_declared cv) (only parsing).
+Local Notation escape_sound_lemma := (SmtSerLemmas.escape_sound_lemma cv) (only parsing).
+
 (** ** widths of well-typed expressions are positive *)
 
 Definition ty_pos (t : ty) : Prop :=
@@ -103,7 +112,7 @@ Proof. rewrite forallb_app, andb_true_iff. tauto. Qed.
 Lemma name_ok_facts n : name_ok n = true ->
   symbol_name (escape_id n) = Some n /\ String.eqb n "true" = false /\ String.eqb n "false" = false.
 Proof.
-  unfold name_ok. destruct (symbol_name (escape_id n)) as [n'|]; [|discriminate].
+  unfold SmtSer.name_ok. destruct (symbol_name (escape_id n)) as [n'|]; [|discriminate].
   rewrite andb_true_iff, negb_true_iff, orb_false_iff. intros [He [Ht _]]. apply String.eqb_eq in He. subst n'.
   split; [reflexivity|].
   unfold is_theory_name, str_in in Ht.
@@ -120,7 +129,7 @@ Lemma symbol_good G rho n t :
   scheck G (SxAtom (escape_id n)) = Some (sort_for t false) /\
   seval (smodel_of G rho) (SxAtom (escape_id n)) = Some (sval_for t false v f).
 Proof.
-  unfold declared. cbn [fst snd]. rewrite andb_true_iff. intros [Hn Hg] Hpos Hb.
+  unfold SmtSer.declared. cbn [fst snd]. rewrite andb_true_iff. intros [Hn Hg] Hpos Hb.
   destruct (name_ok_facts n Hn) as (Hs & Ht & Hf).
   destruct (G n) as [s|] eqn:EG; [|discriminate]. apply ssort_eqb_eq in Hg. subst s.
   cbn [scheck seval]. unfold check_atom, eval_atom. rewrite Hs, Ht, Hf.
@@ -245,7 +254,7 @@ Section Main.
 
   Lemma ser_good e : wt e = true -> built e = true -> symbols_declared G e = true -> forall mb, good G rho e mb.
   Proof.
-    unfold symbols_declared.
+    unfold SmtSer.symbols_declared.
     induction e as
       [ n w | w v | a IHa by_ w | a IHa by_ w | a IHa hi lo | a IHa w | a IHa w
       | a IHa b IHb | a IHa b IHb | a IHa b IHb | a IHa b IHb w | a IHa b IHb | a IHa b IHb w
@@ -510,7 +519,7 @@ Lemma name_ok_intro n :
   name_chars_ok n = true -> is_reserved n = false -> is_theory_name n = false ->
   is_solver_reserved n = false -> name_ok n = true.
 Proof.
-  intros Hc Hr Ht Hs. unfold name_ok. rewrite (escape_sound_lemma n Hc Hr), String.eqb_refl, Ht, Hs. reflexivity.
+  intros Hc Hr Ht Hs. unfold SmtSer.name_ok. rewrite (escape_sound_lemma n Hc Hr), String.eqb_refl, Ht, Hs. reflexivity.
 Qed.
 
 (** the latent defect behind [built]: for a one-bit source even the intended output of a
@@ -519,5 +528,7 @@ Qed.
 Lemma noop_slice_latent :
   exists G e, wt e = true /\ symbols_declared G e = true /\ built e = false /\ scheck G (ser e false) = None.
 Proof.
-  exists (upd empty_ctx "x" SoBool), (BVSlice (BVSymbol "x" 1) 0 0). vm_compute. repeat split.
+  exists (upd empty_ctx "x" SoBool), (BVSlice (BVSymbol "x" 1) 0 0). destruct cv; vm_compute; repeat split.
 Qed.
+
+End CV.
